@@ -311,6 +311,26 @@ pub fn rup_check(f: &Formula, proof: &str) -> Result<bool, String> {
 pub struct CliOut {
     pub status: Option<i32>,
     pub stdout: String,
+    pub stderr: String,
+}
+
+impl CliOut {
+    /// `panicked at <file>:<line>:<col>:\n<message>` -> stable signature `<file>:<message start>`
+    pub fn panic_site(&self) -> Option<String> {
+        let i = self.stderr.find("panicked at ")?;
+        let rest = &self.stderr[i + 12..];
+        let mut lines = rest.lines();
+        let loc = lines.next()?.trim().trim_end_matches(':');
+        let file = loc.split(':').next().unwrap_or(loc);
+        let msg: String = lines
+            .next()
+            .unwrap_or("")
+            .chars()
+            .take(40)
+            .map(|c| if c.is_ascii_alphanumeric() { c } else { '_' })
+            .collect();
+        Some(format!("{file}:{msg}"))
+    }
 }
 
 pub fn run_cli(args: &[&str], timeout_s: u64) -> Result<CliOut, String> {
@@ -318,16 +338,25 @@ pub fn run_cli(args: &[&str], timeout_s: u64) -> Result<CliOut, String> {
         .arg(format!("{timeout_s}"))
         .arg(CLI)
         .args(args)
+        .env("RUST_BACKTRACE", "0")
         .stdout(std::process::Stdio::piped())
-        .stderr(std::process::Stdio::null())
+        .stderr(std::process::Stdio::piped())
         .spawn()
         .map_err(|e| e.to_string())?;
+    let mut stderr_pipe = child.stderr.take().unwrap();
+    let err_thread = std::thread::spawn(move || {
+        let mut e = String::new();
+        let _ = stderr_pipe.read_to_string(&mut e);
+        e
+    });
     let mut out = String::new();
     let _ = child.stdout.take().unwrap().read_to_string(&mut out);
     let st = child.wait().map_err(|e| e.to_string())?;
+    let err = err_thread.join().unwrap_or_default();
     Ok(CliOut {
         status: st.code(),
         stdout: out,
+        stderr: err,
     })
 }
 
